@@ -1,1 +1,284 @@
-//! DOM Level 1 reference model (O2) for edit histories.
+//! DOM Level 1 reference model (O2) for edit histories: an arena tree that mirrors the pool of live
+//! nodes index by index, the set of admissible outcomes of every call (DOM Level 1 Core, written from the
+//! recommendation text) and the effect of a successful call.
+use crate::dompool::{Op, Pool, E, K};
+use crate::spec;
+use crate::util::{esc, esc_opt};
+use xml_dom::Node;
+
+#[derive(Clone, Debug)]
+pub struct MNode {
+    pub kind: K,
+    pub doc: usize,
+    /// tag name / attribute name / PI target / reference name
+    pub name: String,
+    /// text, comment, CDATA, PI data; replacement value of a reference
+    pub data: String,
+    pub parent: Option<usize>,
+    pub children: Vec<usize>,
+    /// attributes of an element
+    pub attrs: Vec<usize>,
+    /// owner element of an attribute
+    pub owner: Option<usize>,
+}
+
+#[derive(Clone)]
+pub struct Model { pub n: Vec<MNode> }
+
+/// implicit nodes a successful call creates, to be registered by the caller
+#[derive(Clone, Debug, PartialEq)]
+pub enum Adopt { Nothing, Attr { e: usize, local: String, value: String }, AttrChildren { a: usize, value: String } }
+
+/// what DOM Level 1 admits for a call
+#[derive(Clone, Debug, PartialEq)]
+pub struct Expect {
+    /// the call may succeed
+    pub ok: bool,
+    /// exception classes of which any one may be raised
+    pub errs: Vec<E>,
+    /// DOM Level 1 does not say (either outcome; the model cannot predict the effect)
+    pub unspecified: bool,
+}
+
+impl Expect {
+    fn ok() -> Expect { Expect { ok: true, errs: vec![], unspecified: false } }
+    fn err(v: Vec<E>) -> Expect { Expect { ok: false, errs: v, unspecified: false } }
+    fn unspecified() -> Expect { Expect { ok: true, errs: vec![], unspecified: true } }
+    pub fn describe(&self) -> String { if self.unspecified { "unspecified".into() } else if self.ok { "ok".into() } else { let mut v: Vec<String> = self.errs.iter().map(|e| e.name()).collect(); v.sort(); v.join("|") } }
+}
+
+fn can_contain(parent: K, child: K) -> bool {
+    match parent {
+        K::Element => matches!(child, K::Element | K::Text | K::CData | K::Comment | K::PI | K::EntRef),
+        K::Document => matches!(child, K::Element | K::Comment | K::PI | K::Doctype),
+        K::Attr => matches!(child, K::Text | K::EntRef),
+        _ => false,
+    }
+}
+
+/// the part of a name DOM reports as the node name (xml-rs reports local names)
+fn local_of(name: &str) -> String { match name.find(':') { Some(p) => name[p + 1..].to_string(), None => name.to_string() } }
+
+impl Model {
+    /// mirror the pool: node i of the model is node i of the pool
+    pub fn from_pool(pool: &Pool) -> Model {
+        let mut m = Model { n: vec![] };
+        for i in 0..pool.h.len() { m.n.push(Self::blank(pool, i)); }
+        // structure: parents and children as the library reports them at the start (the parse result is C01's business)
+        for i in 0..pool.h.len() {
+            let h = &pool.h[i];
+            if matches!(h.kind, K::Document | K::Element | K::Attr) {
+                for c in h.node.child_nodes().iter() { if let Some(ci) = pool.find(&c, h.doc) { m.n[i].children.push(ci); m.n[ci].parent = Some(i); } }
+            }
+            if h.kind == K::Element { if let Some(attrs) = h.node.attributes() { for a in attrs.iter() { let an = xml_dom::AsNode::as_node(&a); if let Some(ai) = pool.find(&an, h.doc) { m.n[i].attrs.push(ai); m.n[ai].owner = Some(i); } } } }
+        }
+        m
+    }
+
+    fn blank(pool: &Pool, i: usize) -> MNode {
+        let h = &pool.h[i];
+        let name = match h.kind { K::Element | K::Attr | K::PI | K::EntRef | K::Doctype => h.node.node_name(), _ => String::new() };
+        let data = match h.kind { K::Text | K::CData | K::Comment | K::PI | K::EntRef => pool.data_of(i).unwrap_or_default(), _ => String::new() };
+        MNode { kind: h.kind, doc: h.doc, name, data, parent: None, children: vec![], attrs: vec![], owner: None }
+    }
+
+    /// nodes the pool gained during the last call get model twins (their structure is set by `apply`)
+    pub fn sync_new(&mut self, pool: &Pool) { while self.n.len() < pool.h.len() { let i = self.n.len(); self.n.push(Self::blank(pool, i)); } }
+
+    pub fn is_ancestor_or_self(&self, a: usize, n: usize) -> bool { let mut cur = Some(n); while let Some(x) = cur { if x == a { return true; } cur = self.n[x].parent; } false }
+
+    pub fn doc_element(&self, d: usize) -> Option<usize> { self.n[d].children.iter().cloned().find(|&c| self.n[c].kind == K::Element) }
+    pub fn doc_doctype(&self, d: usize) -> Option<usize> { self.n[d].children.iter().cloned().find(|&c| self.n[c].kind == K::Doctype) }
+
+    pub fn attr_value(&self, a: usize) -> String { self.n[a].children.iter().map(|&c| self.n[c].data.clone()).collect() }
+
+    fn insert_expect(&self, p: usize, c: usize, r: Option<usize>) -> Expect {
+        let (pk, ck) = (self.n[p].kind, self.n[c].kind);
+        let mut errs = vec![];
+        if !matches!(pk, K::Element | K::Document | K::Attr) { return Expect::err(vec![E::HierarchyRequest, E::NotCallable]); }
+        if ck == K::Fragment || ck == K::Doctype || pk == K::EntRef { return Expect::unspecified(); }
+        if self.n[c].doc != self.n[p].doc { errs.push(E::WrongDocument); }
+        if let Some(r) = r { if self.n[r].doc != self.n[p].doc { errs.push(E::WrongDocument); errs.push(E::NotFound); } }
+        if !can_contain(pk, ck) { errs.push(E::HierarchyRequest); }
+        if self.is_ancestor_or_self(c, p) { errs.push(E::HierarchyRequest); }
+        if let Some(r) = r { if self.n[r].parent != Some(p) { errs.push(E::NotFound); } }
+        // a document holds at most one element: a second one is refused (moving the one it has is fine)
+        if pk == K::Document && ck == K::Element { if let Some(e) = self.doc_element(p) { if e != c { errs.push(E::HierarchyRequest); } } }
+        if !errs.is_empty() { errs.sort(); errs.dedup(); return Expect::err(errs); }
+        if Some(c) == r { return Expect::unspecified(); }
+        Expect::ok()
+    }
+
+    fn name_ok(name: &str) -> bool { spec::is_name(name) }
+
+    /// admissible outcomes of a call in the current state
+    pub fn expect(&self, op: &Op) -> Expect {
+        match op {
+            Op::AppendChild { p, c } => self.insert_expect(*p, *c, None),
+            Op::InsertBefore { p, c, r } => self.insert_expect(*p, *c, *r),
+            Op::ReplaceChild { p, n, o } => {
+                let e = self.insert_expect(*p, *n, Some(*o));
+                if n == o { return Expect::unspecified(); }
+                // replacing the document element by another element is legal although a second element may not be inserted
+                if !e.ok && self.n[*p].kind == K::Document && self.n[*n].kind == K::Element && self.n[*o].kind == K::Element && self.n[*o].parent == Some(*p) && self.n[*n].doc == self.n[*p].doc && !self.is_ancestor_or_self(*n, *p) { return Expect::ok(); }
+                e
+            }
+            Op::RemoveChild { p, o } => {
+                if !matches!(self.n[*p].kind, K::Element | K::Document | K::Attr) { return Expect::err(vec![E::HierarchyRequest, E::NotFound, E::NotCallable]); }
+                if self.n[*o].parent == Some(*p) { Expect::ok() } else if self.n[*o].doc != self.n[*p].doc { Expect::err(vec![E::NotFound, E::WrongDocument]) } else { Expect::err(vec![E::NotFound]) }
+            }
+            Op::SetAttribute { e, name, .. } => { if self.n[*e].kind != K::Element { return Expect::err(vec![E::NotCallable]); } if Self::name_ok(name) { Expect::ok() } else { Expect::err(vec![E::InvalidCharacter]) } }
+            Op::RemoveAttribute { e, .. } => { if self.n[*e].kind != K::Element { return Expect::err(vec![E::NotCallable]); } Expect::ok() }
+            Op::SetAttributeNode { e, a } | Op::SetNamedItem { e, a } => {
+                if self.n[*e].kind != K::Element || self.n[*a].kind != K::Attr { return Expect::err(vec![E::NotCallable]); }
+                let mut errs = vec![];
+                if self.n[*a].doc != self.n[*e].doc { errs.push(E::WrongDocument); }
+                if let Some(o) = self.n[*a].owner { if o != *e { errs.push(E::InuseAttribute); } else if errs.is_empty() { return Expect::unspecified(); } }
+                if errs.is_empty() { Expect::ok() } else { Expect::err(errs) }
+            }
+            Op::RemoveAttributeNode { e, a } => {
+                if self.n[*e].kind != K::Element || self.n[*a].kind != K::Attr { return Expect::err(vec![E::NotCallable]); }
+                if self.n[*a].owner == Some(*e) { Expect::ok() } else { Expect::err(vec![E::NotFound]) }
+            }
+            Op::RemoveNamedItem { e, name } => {
+                if self.n[*e].kind != K::Element { return Expect::err(vec![E::NotCallable]); }
+                if self.n[*e].attrs.iter().any(|&a| &self.n[a].name == name) { Expect::ok() } else { Expect::err(vec![E::NotFound]) }
+            }
+            Op::CreateElement { name, .. } | Op::CreateAttribute { name, .. } => if Self::name_ok(name) { Expect::ok() } else { Expect::err(vec![E::InvalidCharacter]) },
+            Op::CreatePI { target, .. } => if Self::name_ok(target) && !target.eq_ignore_ascii_case("xml") { Expect::ok() } else { Expect::err(vec![E::InvalidCharacter]) },
+            Op::CreateEntRef { name, .. } => if Self::name_ok(name) { Expect::unspecified() } else { Expect::err(vec![E::InvalidCharacter]) },
+            Op::CreateText { .. } | Op::CreateComment { .. } | Op::CreateCData { .. } => Expect::ok(),
+            Op::SetNodeValue { n, .. } => match self.n[*n].kind { K::Attr | K::Text | K::CData | K::Comment | K::PI => Expect::ok(), K::Element | K::Document => Expect::unspecified(), _ => Expect::err(vec![E::NotCallable]) },
+            Op::SetData { n, .. } => match self.n[*n].kind { K::Text | K::CData | K::Comment | K::PI => Expect::ok(), _ => Expect::err(vec![E::NotCallable]) },
+            Op::AppendData { n, .. } => self.cd(*n, 0, None),
+            Op::InsertData { n, off, .. } => self.cd(*n, *off, None),
+            Op::DeleteData { n, off, .. } | Op::ReplaceData { n, off, .. } | Op::SubstringData { n, off, .. } => self.cd(*n, *off, None),
+            Op::Length { n } => self.cd(*n, 0, None),
+            Op::SplitText { n, off } => {
+                if !matches!(self.n[*n].kind, K::Text | K::CData) { return Expect::err(vec![E::NotCallable]); }
+                if *off > self.n[*n].data.chars().count() { return Expect::err(vec![E::IndexSize]); }
+                // DOM Level 1 describes split_text for a node in a tree; for a node without parent it does not say
+                if self.n[*n].parent.is_none() { return Expect::unspecified(); }
+                Expect::ok()
+            }
+        }
+    }
+
+    fn cd(&self, n: usize, off: usize, _c: Option<usize>) -> Expect {
+        if !matches!(self.n[n].kind, K::Text | K::CData | K::Comment) { return Expect::err(vec![E::NotCallable]); }
+        if off > self.n[n].data.chars().count() { Expect::err(vec![E::IndexSize]) } else { Expect::ok() }
+    }
+
+    fn detach(&mut self, c: usize) { if let Some(p) = self.n[c].parent.take() { self.n[p].children.retain(|&x| x != c); } }
+
+    fn insert(&mut self, p: usize, c: usize, r: Option<usize>) {
+        self.detach(c);
+        let at = match r { Some(r) => self.n[p].children.iter().position(|&x| x == r).unwrap_or(self.n[p].children.len()), None => self.n[p].children.len() };
+        self.n[p].children.insert(at, c);
+        self.n[c].parent = Some(p);
+    }
+
+    /// Apply the effect of a successful call. `ret` is the pool index of the node the library returned (if
+    /// any). Nodes that the library creates implicitly (the Attr made by set_attribute, the Text that carries a
+    /// newly set attribute value) are not predicted node by node: the caller registers them and hands them to
+    /// `adopt_attr` / `adopt_attr_children`, which check them against the value the call supplied.
+    pub fn apply(&mut self, op: &Op, ret: Option<usize>) -> Result<Adopt, String> {
+        match op {
+            Op::AppendChild { p, c } => { self.insert(*p, *c, None); if ret != Some(*c) { return Err(format!("returned node is not the appended child (#{:?})", ret)); } }
+            Op::InsertBefore { p, c, r } => { self.insert(*p, *c, *r); if ret != Some(*c) { return Err(format!("returned node is not the inserted child (#{:?})", ret)); } }
+            Op::ReplaceChild { p, n, o } => { self.insert(*p, *n, Some(*o)); self.detach(*o); if ret != Some(*o) { return Err(format!("returned node is not the replaced child (#{:?})", ret)); } }
+            Op::RemoveChild { o, .. } => { self.detach(*o); if ret != Some(*o) { return Err(format!("returned node is not the removed child (#{:?})", ret)); } }
+            Op::SetAttribute { e, name, value } => {
+                let local = local_of(name);
+                if let Some(pos) = self.n[*e].attrs.iter().position(|&a| self.n[a].name == local) { let a = self.n[*e].attrs.remove(pos); self.n[a].owner = None; }
+                return Ok(Adopt::Attr { e: *e, local, value: value.clone() });
+            }
+            Op::RemoveAttribute { e, name } => { if let Some(pos) = self.n[*e].attrs.iter().position(|&a| &self.n[a].name == name) { let a = self.n[*e].attrs.remove(pos); self.n[a].owner = None; } }
+            Op::SetAttributeNode { e, a } | Op::SetNamedItem { e, a } => {
+                let name = self.n[*a].name.clone();
+                let old = self.n[*e].attrs.iter().position(|&x| self.n[x].name == name).map(|pos| self.n[*e].attrs.remove(pos));
+                if let Some(o) = old { self.n[o].owner = None; }
+                self.n[*e].attrs.push(*a); self.n[*a].owner = Some(*e);
+                if ret != old { return Err(format!("returned attribute #{:?} but the replaced one is #{:?}", ret, old)); }
+            }
+            Op::RemoveAttributeNode { e, a } => { self.n[*e].attrs.retain(|x| x != a); self.n[*a].owner = None; if ret != Some(*a) { return Err(format!("returned node is not the removed attribute (#{:?})", ret)); } }
+            Op::RemoveNamedItem { e, name } => { let pos = self.n[*e].attrs.iter().position(|&a| &self.n[a].name == name).unwrap(); let a = self.n[*e].attrs.remove(pos); self.n[a].owner = None; if ret != Some(a) { return Err(format!("returned node is not the removed attribute (#{:?})", ret)); } }
+            Op::CreateElement { name, .. } => { let i = ret.ok_or("no node returned")?; self.n[i].kind = K::Element; self.n[i].name = local_of(name); self.check_fresh(i)?; }
+            Op::CreateAttribute { name, .. } => { let i = ret.ok_or("no node returned")?; self.n[i].kind = K::Attr; self.n[i].name = local_of(name); self.check_fresh(i)?; }
+            Op::CreateText { data, .. } => { let i = ret.ok_or("no node returned")?; self.n[i].kind = K::Text; self.n[i].data = data.clone(); self.check_fresh(i)?; }
+            Op::CreateComment { data, .. } => { let i = ret.ok_or("no node returned")?; self.n[i].kind = K::Comment; self.n[i].data = data.clone(); self.check_fresh(i)?; }
+            Op::CreateCData { data, .. } => { let i = ret.ok_or("no node returned")?; self.n[i].kind = K::CData; self.n[i].data = data.clone(); self.check_fresh(i)?; }
+            Op::CreatePI { target, data, .. } => { let i = ret.ok_or("no node returned")?; self.n[i].kind = K::PI; self.n[i].name = target.clone(); self.n[i].data = data.clone(); self.check_fresh(i)?; }
+            Op::CreateEntRef { .. } => {}
+            Op::SetNodeValue { n, value } | Op::SetData { n, data: value } => {
+                match self.n[*n].kind {
+                    K::Attr => { for c in std::mem::take(&mut self.n[*n].children) { self.n[c].parent = None; } return Ok(Adopt::AttrChildren { a: *n, value: value.clone() }); }
+                    K::Text | K::CData | K::Comment | K::PI => self.n[*n].data = value.clone(),
+                    _ => {}
+                }
+            }
+            Op::AppendData { n, data } => self.n[*n].data.push_str(data),
+            Op::InsertData { n, off, data } => { let cs: Vec<char> = self.n[*n].data.chars().collect(); let mut s: String = cs[..*off].iter().collect(); s.push_str(data); s.extend(cs[*off..].iter()); self.n[*n].data = s; }
+            Op::DeleteData { n, off, count } => { let cs: Vec<char> = self.n[*n].data.chars().collect(); let end = off.saturating_add(*count).min(cs.len()); let mut s: String = cs[..*off].iter().collect(); s.extend(cs[end..].iter()); self.n[*n].data = s; }
+            Op::ReplaceData { n, off, count, data } => { let cs: Vec<char> = self.n[*n].data.chars().collect(); let end = off.saturating_add(*count).min(cs.len()); let mut s: String = cs[..*off].iter().collect(); s.push_str(data); s.extend(cs[end..].iter()); self.n[*n].data = s; }
+            Op::SubstringData { .. } | Op::Length { .. } => {}
+            Op::SplitText { n, off } => {
+                let i = ret.ok_or("no node returned")?;
+                let cs: Vec<char> = self.n[*n].data.chars().collect();
+                self.n[*n].data = cs[..*off].iter().collect();
+                self.n[i].kind = self.n[*n].kind; self.n[i].data = cs[*off..].iter().collect();
+                if let Some(p) = self.n[*n].parent { let pos = self.n[p].children.iter().position(|&x| x == *n).unwrap(); self.n[p].children.insert(pos + 1, i); self.n[i].parent = Some(p); }
+            }
+        }
+        Ok(Adopt::Nothing)
+    }
+
+    /// the Attr node the library made for set_attribute (`a`, with children `ch`), checked against the call
+    pub fn adopt_attr(&mut self, e: usize, a: usize, ch: &[usize], local: &str, value: &str) -> Result<(), String> {
+        if self.n[a].kind != K::Attr || self.n[a].name != local { return Err(format!("the element's attribute {:?} is a {:?} named {:?}", local, self.n[a].kind, self.n[a].name)); }
+        if let Some(o) = self.n[a].owner { if o != e { return Err("the attribute node already belongs to another element".into()); } }
+        self.n[e].attrs.retain(|&x| x != a);
+        self.n[e].attrs.push(a); self.n[a].owner = Some(e);
+        self.adopt_attr_children(a, ch, value)
+    }
+
+    pub fn adopt_attr_children(&mut self, a: usize, ch: &[usize], value: &str) -> Result<(), String> {
+        for c in std::mem::take(&mut self.n[a].children) { self.n[c].parent = None; }
+        let mut s = String::new();
+        for &c in ch { if !matches!(self.n[c].kind, K::Text | K::EntRef) { return Err(format!("attribute child of kind {:?}", self.n[c].kind)); } if self.n[c].parent.is_some() && self.n[c].parent != Some(a) { return Err("a child of the new value is still the child of another node".into()); } self.n[c].parent = Some(a); self.n[a].children.push(c); s.push_str(&self.n[c].data); }
+        if s != value { return Err(format!("the attribute's children spell {:?}, the call supplied {:?}", s, value)); }
+        Ok(())
+    }
+
+    fn check_fresh(&self, i: usize) -> Result<(), String> { if self.n[i].parent.is_some() || self.n[i].owner.is_some() || !self.n[i].children.is_empty() { Err(format!("factory returned node #{} that is already in use", i)) } else { Ok(()) } }
+
+    /// value of a read-only call
+    pub fn read(&self, op: &Op) -> Option<String> {
+        match op {
+            Op::SubstringData { n, off, count } => { let cs: Vec<char> = self.n[*n].data.chars().collect(); let end = off.saturating_add(*count).min(cs.len()); Some(cs[*off..end].iter().collect()) }
+            Op::Length { n } => Some(self.n[*n].data.chars().count().to_string()),
+            _ => None,
+        }
+    }
+
+    /// canonical dump of the subtree rooted at `i` in the format of obs::Walker (raw view, no namespaces)
+    pub fn dump(&self, i: usize, depth: usize, out: &mut String) {
+        let nd = &self.n[i];
+        match nd.kind {
+            K::Document => { for &c in &nd.children { self.dump(c, 0, out); } }
+            K::Element => {
+                out.push_str(&format!("E {} {} {}\n", depth, esc_opt(None), esc(&nd.name)));
+                let mut lines: Vec<(String, String)> = nd.attrs.iter().map(|&a| (self.n[a].name.clone(), format!("A {} {} {} {}\n", depth + 1, esc_opt(None), esc(&self.n[a].name), esc(&self.attr_value(a))))).collect();
+                lines.sort();
+                for l in lines { out.push_str(&l.1); }
+                for &c in &nd.children { self.dump(c, depth + 1, out); }
+            }
+            K::Text => out.push_str(&format!("X {} {}\n", depth, esc(&nd.data))),
+            K::CData => out.push_str(&format!("K {} {}\n", depth, esc(&nd.data))),
+            K::EntRef => out.push_str(&format!("R {} {} {}\n", depth, esc(&nd.name), esc(&nd.data))),
+            K::Comment => out.push_str(&format!("C {} {}\n", depth, esc(&nd.data))),
+            K::PI => out.push_str(&format!("P {} {} {}\n", depth, esc(&nd.name), esc(&nd.data))),
+            _ => {}
+        }
+    }
+}
